@@ -36,7 +36,7 @@ m = {
     ],
     "checks": checks,
     "not_applicable": na,
-    "notes": "exit 2 (UNDECIDED) is used for extraction refusals, lost anchors, type errors in generated text, rlimit and vacuity problems; it is never reported as a violation. Known findings: /verif/known_findings.json (six `fixed` entries D1-D5, repaired in /repo by `fix:` commits; one `known` entry D6 (serde alias of NIST OPRF elements in four messages and two client states), for which the C10 check prints a KNOWN-FINDING line and exits 0). Seeded changes used to test the checks: /verif/seeded (100 + MATRIX.md), DESIGN.md section 12.",
+    "notes": "exit 2 (UNDECIDED) is used for extraction refusals, lost anchors, type errors in generated text, rlimit and vacuity problems; it is never reported as a violation. Known findings: /verif/known_findings.json (seven `fixed` entries D1-D6, each repaired in /repo by one `fix:` commit; no `known` entry, so no KNOWN-FINDING line is printed; the probe c10serde behind D6 still runs on every C10 run). Seeded changes used to test the checks: /verif/seeded (100 + MATRIX.md), DESIGN.md section 12.",
 }
 json.dump(m, open(os.path.join(V, "MANIFEST.json"), "w"), indent=1)
 print("checks:", [c["property_id"] for c in checks], "n/a:", len(na))
